@@ -5,7 +5,40 @@
 From NG Require Import Common.Tactics Common.HarnessLib.
 From NG Require Export Tokens.Model.
 From NG Require Import Tokens.Inv Tokens.OpProofs Tokens.CfgCheck Node.Gov.
+From NG Require Export Auth.Permission Auth.PermStore.
+From Coq Require String.
 Open Scope Z_scope.
+
+
+(* the method names the cases speak about (string literals are confined to this module) *)
+Module MethodNames.
+Import String.
+Local Open Scope string_scope.
+Definition s_version : string := "version".
+Definition s_put : string := "put".
+Definition s_del : string := "del".
+Definition s_fill : string := "fill".
+Definition s_sweep : string := "sweep".
+Definition s_fillFail : string := "fillFail".
+Definition s_fillS : string := "fillS".
+Definition s_peek : string := "peek".
+Definition s_keep : string := "keep".
+Definition s_keepTwice : string := "keepTwice".
+Definition s_natives : string := "natives".
+Definition s_peekNatives : string := "peekNatives".
+Definition s_take : string := "take".
+Definition s_relay : string := "relay".
+Definition s_update : string := "update".
+Definition s_destroy : string := "destroy".
+Definition s_callPut : string := "callPut".
+Definition s_callTake : string := "callTake".
+Definition s_witnessed : string := "witnessed".
+Definition s_getContract : string := "getContract".
+Definition s_transfer : string := "transfer".
+Definition s_balanceOf : string := "balanceOf".
+Definition s_other : string := "other".
+End MethodNames.
+Export MethodNames.
 
 Record gobs := mkG {
   g_committee : list N;      (* GetCommittee: sorted keys *)
@@ -15,7 +48,8 @@ Record gobs := mkG {
   g_policy : list Z;         (* FeePerByte, BaseExecFee (pico), StoragePrice (pico), getGasPerBlock, getRegisterPrice, stored gas records *)
   g_whitelist : list (N * Z);(* cached whitelisted fees (Policy.getWhitelistFeeContracts): (deployer account, fee), ascending *)
   g_roles : list (N * Z * list N);   (* RoleManagement.getDesignatedByRole(role, index) = keys, for the queried (role, index) *)
-  g_contracts : list (N * (Z * Z))   (* Management.getContract of the storage contract of account a: (id, update counter) *)
+  g_contracts : list (N * (Z * Z));  (* Management.getContract of the storage contract of account a: (id, update counter) *)
+  g_manifests : list (N * mshape)    (* ... and the permissions, groups and safe methods of the manifest it serves *)
 }.
 
 Record gblock := mkGB { gb_txs : list tx; gb_obs : gobs }.
@@ -37,7 +71,14 @@ Definition model_obs (cfg : config) (st : state) : gobs :=
                 (map N.of_nat (seq 0 32)))
       [] (* role queries are answered per query, see roles_agree *)
       (flat_map (fun a => let c := contract_of st a in if mc_present c then [(a, (mc_id c, mc_counter c))] else [])
+                (map N.of_nat (seq 0 32)))
+      (flat_map (fun a => let c := contract_of st a in
+                          if mc_present c then [(a, mkShape (mc_perms c) (mc_groups c) (mc_safe c))] else [])
                 (map N.of_nat (seq 0 32))).
+
+Definition shape_eqb (x y : mshape) : bool :=
+  sitem_eqb (perms_to_item (sh_perms x)) (perms_to_item (sh_perms y))
+  && list_eqb N.eqb (sh_groups x) (sh_groups y) && list_eqb String.eqb (sh_safe x) (sh_safe y).
 
 Definition roles_agree (st : state) (qs : list (N * Z * list N)) : bool :=
   forallb (fun '(role, idx, ks) => nlist_eqb (snd (designated st role idx)) ks) qs.
@@ -48,7 +89,8 @@ Definition gobs_eqb (a b : gobs) : bool :=
   && zlist_eqb (g_policy a) (g_policy b)
   && list_eqb (fun x y => N.eqb (fst x) (fst y) && (snd x =? snd y)) (g_whitelist a) (g_whitelist b)
   && list_eqb (fun x y => N.eqb (fst x) (fst y) && (fst (snd x) =? fst (snd y)) && (snd (snd x) =? snd (snd y)))
-              (g_contracts a) (g_contracts b).
+              (g_contracts a) (g_contracts b)
+  && list_eqb (fun x y => N.eqb (fst x) (fst y) && shape_eqb (snd x) (snd y)) (g_manifests a) (g_manifests b).
 
 Fixpoint mem_Z (x : Z) (l : list Z) : bool := match l with [] => false | y :: t => (x =? y) || mem_Z x t end.
 
